@@ -1,4 +1,5 @@
 import HotstuffModel.Proofs.Reachable
+import HotstuffModel.Proofs.MempoolSync
 /-!
 # C13 — End to end: submitted transactions commit everywhere (PARTIAL: pipeline lemmas)
 
@@ -136,6 +137,279 @@ example :
     -- node 2 leads round 1
     let s := run c (init c 2) [.digest 9, .proposer [9]]
     s.buffer = [] ∧ s.hist.any (fun o => match o with | .propose b => b.payload == [9] | _ => false) = true := by
+  decide
+
+end HS.C13
+
+/-!
+## mempool peer side
+
+Model: `HS.MS` (`Model/MempoolSync.lean`): `Synchronizer`, `Helper`, the `Processor` for received
+batches and the receiver dispatch, on one shared store.  `reach cfg es` is the state after the event
+list `es` from the initial state.  Every theorem is for EVERY finite event list — frames of the
+three kinds, `Synchronize`/`Cleanup` commands with any arguments, timer expiries at any wall-clock
+reading and with any pick of peers, waiter completions at any moment, writes to the shared store by
+other tasks — and every configuration (committee, `gc_depth`, `sync_retry_delay`,
+`sync_retry_nodes`, hash function).
+
+Two things the code does that one might not expect (the model does the same, the examples at the
+end exhibit them): the synchronizer never looks into the store, so a `Synchronize` naming a digest
+that is already stored requests it again (consensus only names digests it has just found missing,
+see `peer_request_is_neither_stored_nor_pending`); and when every digest named is already pending
+an EMPTY `BatchRequest` is still sent to the target.
+-/
+namespace HS.C13
+-- `HS.Event`, `HS.Out`, `HS.step`, … (the node model) would shadow the names of `HS.MS` here
+export HS.MS (Cfg Event Out State PEntry step run reach outs init lookup)
+open HS.MS
+
+/-- (b) `Synchronize(ds, t)` in any reachable state emits exactly one `BatchRequest`, to `t`
+(nothing at all if `t` is not in the committee), and it lists exactly the digests of `ds` that
+are not already pending — each once, in the order of their first occurrence in `ds`.  Exactly those
+digests become pending, stamped with the synchronizer's current round and the wall clock; store and
+round do not change. -/
+theorem peer_synchronize_requests_exactly_the_new_digests (cfg : Cfg) (es : List Event)
+    (ds : List Nat) (t now : Nat) :
+    ∃ miss : List Nat,
+      (step cfg (reach cfg es) (.synchronize ds t now)).2 =
+        (if cfg.members.contains t then [Out.requestTo t miss] else []) ∧
+      (∀ d, d ∈ miss ↔ d ∈ ds ∧ d ∉ pendingDigests (reach cfg es).pending) ∧
+      miss.Nodup ∧ miss.Sublist ds ∧
+      (step cfg (reach cfg es) (.synchronize ds t now)).1.pending =
+        (reach cfg es).pending ++ miss.map (fun d => ⟨d, (reach cfg es).round, now⟩) ∧
+      (step cfg (reach cfg es) (.synchronize ds t now)).1.store = (reach cfg es).store ∧
+      (step cfg (reach cfg es) (.synchronize ds t now)).1.round = (reach cfg es).round :=
+  ⟨(register (reach cfg es).round now (reach cfg es).pending ds).2, rfl,
+    fun d => mem_register _ _ _ _ d, register_nodup _ _ _ _, register_sublist _ _ _ _,
+    register_pending _ _ _ _, rfl, rfl⟩
+
+/-- (b) When consensus names only digests it does not have (it reads the store right before, see
+`MempoolDriver::verify`), the request lists exactly the digests that are neither stored nor
+pending. -/
+theorem peer_request_is_neither_stored_nor_pending (cfg : Cfg) (es : List Event)
+    (ds : List Nat) (t now : Nat) (hl : ∀ d ∈ ds, lookup (reach cfg es).store d = none)
+    (ht : cfg.members.contains t = true) :
+    ∃ miss : List Nat,
+      (step cfg (reach cfg es) (.synchronize ds t now)).2 = [Out.requestTo t miss] ∧
+      ∀ d, d ∈ miss ↔
+        d ∈ ds ∧ lookup (reach cfg es).store d = none ∧ d ∉ pendingDigests (reach cfg es).pending := by
+  refine ⟨(register (reach cfg es).round now (reach cfg es).pending ds).2,
+    by simp only [step]; rw [if_pos ht], ?_⟩
+  intro d
+  rw [mem_register]
+  exact ⟨fun ⟨h1, h2⟩ => ⟨h1, hl d h1, h2⟩, fun ⟨h1, _, h2⟩ => ⟨h1, h2⟩⟩
+
+/-- (c) One step of `pending`, exactly: an entry is pending after an event iff it was pending
+before and the event did not remove it — only the completion of its own waiter, possible only once
+the batch is in the store, and a `Cleanup(r)` with `r ≥ gc_depth` and `entry round + gc_depth ≤ r`
+remove entries — or the event is a `Synchronize` naming its digest while that digest was not
+pending. -/
+theorem peer_pending_step_by_step (cfg : Cfg) (es : List Event) (e : Event) (x : PEntry) :
+    x ∈ (reach cfg (es ++ [e])).pending ↔
+      (x ∈ (reach cfg es).pending ∧ ¬ removed cfg (reach cfg es) e x) ∨ added (reach cfg es) e x := by
+  rw [reach_snoc]; exact mem_pending_step cfg _ e x
+
+/-- (c) Pending ⇒ requested and not cleared since: every entry of `pending` was put there by a
+`Synchronize` event of the run that named its digest while it was not pending (so that event sent
+the request for it, see (b)), carries that event's wall clock and the round of that moment, and
+has been in `pending` after every event since. -/
+theorem peer_pending_has_an_open_request (cfg : Cfg) (es : List Event) (x : PEntry)
+    (h : x ∈ (reach cfg es).pending) :
+    ∃ es1 ds t es2,
+      es = es1 ++ Event.synchronize ds t x.ts :: es2 ∧
+      x.digest ∈ ds ∧ x.digest ∉ pendingDigests (reach cfg es1).pending ∧
+      x.round = (reach cfg es1).round ∧
+      ∀ k, k ≤ es2.length →
+        x ∈ (reach cfg (es1 ++ Event.synchronize ds t x.ts :: es2.take k)).pending :=
+  pending_origin cfg es x h
+
+/-- (c) Requested and not cleared since ⇒ pending: after a `Synchronize` naming `d`, `d` is pending
+for as long as neither its waiter completes nor a `Cleanup` arrives. -/
+theorem peer_open_request_stays_pending (cfg : Cfg) (es1 es2 : List Event) (ds : List Nat)
+    (t now d : Nat) (hd : d ∈ ds) (hc : ∀ e ∈ es2, clears d e = false) :
+    d ∈ pendingDigests (reach cfg (es1 ++ Event.synchronize ds t now :: es2)).pending := by
+  have : es1 ++ Event.synchronize ds t now :: es2 = (es1 ++ [Event.synchronize ds t now]) ++ es2 := by
+    simp
+  rw [this, reach_append]
+  apply pending_preserved_run _ _ _ _ _ hc
+  rw [reach_snoc]
+  exact pending_after_synchronize cfg _ ds t now d hd
+
+/-- (c) Nothing is requested twice while pending: a `Synchronize` never lists a digest that is
+pending … -/
+theorem peer_no_second_request_while_pending (cfg : Cfg) (es : List Event) (ds : List Nat)
+    (t now d : Nat) (hp : d ∈ pendingDigests (reach cfg es).pending) (t' : Nat) (m : List Nat)
+    (ho : Out.requestTo t' m ∈ (step cfg (reach cfg es) (.synchronize ds t now)).2) : d ∉ m := by
+  simp only [step] at ho
+  split at ho
+  · simp only [List.mem_singleton, Out.requestTo.injEq] at ho
+    rw [ho.2]
+    intro hm
+    exact ((mem_register _ _ _ _ _).mp hm).2 hp
+  · simp at ho
+
+/-- … so between two requests for the same digest (by `Synchronize`) there is always the completion
+of its waiter or a `Cleanup`. -/
+theorem peer_second_request_needs_a_clear (cfg : Cfg) (es1 es2 : List Event) (ds1 ds2 : List Nat)
+    (t1 n1 t2 n2 d : Nat) (h1 : d ∈ ds1) (t' : Nat) (m : List Nat)
+    (ho : Out.requestTo t' m ∈
+      (step cfg (reach cfg (es1 ++ Event.synchronize ds1 t1 n1 :: es2)) (.synchronize ds2 t2 n2)).2)
+    (hm : d ∈ m) : ∃ e ∈ es2, clears d e = true := by
+  by_cases hall : es2.all (fun e => !clears d e) = true
+  · exfalso
+    have hc : ∀ e ∈ es2, clears d e = false := by
+      intro e he
+      have := List.all_eq_true.mp hall e he
+      simpa using this
+    exact peer_no_second_request_while_pending cfg _ ds2 t2 n2 d
+      (peer_open_request_stays_pending cfg es1 es2 ds1 t1 n1 d h1 hc) t' m ho hm
+  · have : es2.all (fun e => !clears d e) = false := by simpa using hall
+    obtain ⟨e, he, hce⟩ := List.all_eq_false.mp this
+    exact ⟨e, he, by simpa using hce⟩
+
+/-- (d) The timer: in any reachable state it changes nothing, and it emits one retry request iff
+some pending entry is older than the delay (`timestamp + sync_retry_delay < now`); the request
+carries exactly the digests of those entries, and goes to `min(sync_retry_nodes, n - 1)` members
+of the committee other than the node itself. -/
+theorem peer_retry_exactly_the_overdue (cfg : Cfg) (es : List Event) (now : Nat) (peers : List Nat) :
+    step cfg (reach cfg es) (.timer now peers) =
+      (reach cfg es,
+        if (due cfg (reach cfg es).pending now).isEmpty then []
+        else [.retryTo (pick cfg peers) (due cfg (reach cfg es).pending now)]) ∧
+    (∀ d, d ∈ due cfg (reach cfg es).pending now ↔
+      ∃ x ∈ (reach cfg es).pending, x.digest = d ∧ x.ts + cfg.retryDelay < now) ∧
+    (∀ p ∈ pick cfg peers, p ∈ cfg.members ∧ p ≠ cfg.name) ∧
+    (pick cfg peers).length = min cfg.retryNodes (others cfg).length := by
+  refine ⟨?_, fun d => mem_due cfg _ now d, (pick_legal cfg peers).1, (pick_legal cfg peers).2⟩
+  simp only [step]
+  split <;> rfl
+
+/-- (d) A retry happens only for digests pending longer than the delay: every digest in a retry
+was named by a `Synchronize` handled at wall clock `ts` with `ts + sync_retry_delay < now`, was not
+pending then, and has been pending ever since. -/
+theorem peer_retry_only_after_the_delay (cfg : Cfg) (es : List Event) (now : Nat) (peers ps ds : List Nat)
+    (ho : Out.retryTo ps ds ∈ (step cfg (reach cfg es) (.timer now peers)).2) (d : Nat) (hd : d ∈ ds) :
+    ∃ es1 dsr t ts es2,
+      es = es1 ++ Event.synchronize dsr t ts :: es2 ∧ ts + cfg.retryDelay < now ∧
+      d ∈ dsr ∧ d ∉ pendingDigests (reach cfg es1).pending ∧
+      ∀ k, k ≤ es2.length →
+        d ∈ pendingDigests (reach cfg (es1 ++ Event.synchronize dsr t ts :: es2.take k)).pending := by
+  rw [(peer_retry_exactly_the_overdue cfg es now peers).1] at ho
+  simp only at ho
+  split at ho
+  · simp at ho
+  · simp only [List.mem_singleton, Out.retryTo.injEq] at ho
+    rw [ho.2] at hd
+    obtain ⟨x, hx, hxd, hts⟩ := (mem_due cfg _ now d).mp hd
+    obtain ⟨es1, dsr, t, es2, he, h1, h2, _, h4⟩ := pending_origin cfg es x hx
+    subst hxd
+    refine ⟨es1, dsr, t, x.ts, es2, he, hts, h1, h2, ?_⟩
+    intro k hk
+    simp only [pendingDigests, List.mem_map]
+    exact ⟨x, h4 k hk, rfl⟩
+
+/-- (d) … and it misses none: an entry older than the delay is in the retry the timer emits. -/
+theorem peer_retry_carries_every_overdue_digest (cfg : Cfg) (es : List Event) (now : Nat)
+    (peers : List Nat) (x : PEntry) (hx : x ∈ (reach cfg es).pending)
+    (hts : x.ts + cfg.retryDelay < now) :
+    ∃ ds, (step cfg (reach cfg es) (.timer now peers)).2 = [.retryTo (pick cfg peers) ds] ∧
+      x.digest ∈ ds := by
+  have hm : x.digest ∈ due cfg (reach cfg es).pending now := (mem_due cfg _ now _).mpr ⟨x, hx, rfl, hts⟩
+  refine ⟨due cfg (reach cfg es).pending now, ?_, hm⟩
+  rw [(peer_retry_exactly_the_overdue cfg es now peers).1]
+  have : (due cfg (reach cfg es).pending now).isEmpty = false := by
+    cases hd : due cfg (reach cfg es).pending now with
+    | nil => rw [hd] at hm; simp at hm
+    | cons a l => rfl
+  simp [this]
+
+/-- (e) The waiter of a digest can complete only when the batch is in the store: before that the
+event changes nothing; once it is, the entry leaves `pending` (all other entries stay). -/
+theorem peer_stored_batch_leaves_pending (cfg : Cfg) (es : List Event) (d : Nat) :
+    (lookup (reach cfg es).store d = none →
+      step cfg (reach cfg es) (.batchStored d) = (reach cfg es, [])) ∧
+    (∀ v, lookup (reach cfg es).store d = some v →
+      d ∉ pendingDigests (reach cfg (es ++ [.batchStored d])).pending ∧
+      ∀ x, x.digest ≠ d → (x ∈ (reach cfg (es ++ [.batchStored d])).pending ↔ x ∈ (reach cfg es).pending)) := by
+  refine ⟨fun h => by simp [step, h], ?_⟩
+  intro v hv
+  rw [reach_snoc]
+  simp only [step, hv, pendingDigests, List.mem_map, List.mem_filter, bne_iff_ne, ne_eq, not_exists,
+    not_and]
+  refine ⟨fun x hx hd => hx.2 hd, fun x hx => ⟨fun h => h.1, fun h => ⟨h, hx⟩⟩⟩
+
+/-- (e) A batch frame followed by the completion of the waiter: its digest is not pending
+any more, whatever happened before. -/
+theorem peer_received_batch_clears_its_request (cfg : Cfg) (es : List Event) (b : Nat) :
+    cfg.hash b ∉ pendingDigests (reach cfg (es ++ [.batchFrame b, .batchStored (cfg.hash b)])).pending := by
+  have h : es ++ [Event.batchFrame b, Event.batchStored (cfg.hash b)] =
+      (es ++ [Event.batchFrame b]) ++ [Event.batchStored (cfg.hash b)] := by simp
+  rw [h]
+  have hl : lookup (reach cfg (es ++ [Event.batchFrame b])).store (cfg.hash b) = some b := by
+    rw [reach_snoc]; simp [step, lookup]
+  exact ((peer_stored_batch_leaves_pending cfg _ (cfg.hash b)).2 b hl).1
+
+/-- (e) … so the retries for it stop: once the waiter of a stored digest has completed, no later
+timer expiry re-requests that digest, unless consensus asks for it again. -/
+theorem peer_retries_stop_once_stored (cfg : Cfg) (es1 es2 : List Event) (d v : Nat)
+    (hv : lookup (reach cfg es1).store d = some v)
+    (hs : ∀ ds t n, Event.synchronize ds t n ∈ es2 → d ∉ ds)
+    (now : Nat) (peers ps ds : List Nat)
+    (ho : Out.retryTo ps ds ∈
+      (step cfg (reach cfg (es1 ++ Event.batchStored d :: es2)) (.timer now peers)).2) : d ∉ ds := by
+  have hnp : d ∉ pendingDigests (reach cfg (es1 ++ Event.batchStored d :: es2)).pending := by
+    have : es1 ++ Event.batchStored d :: es2 = (es1 ++ [Event.batchStored d]) ++ es2 := by simp
+    rw [this, reach_append]
+    exact not_pending_preserved_run cfg _ es2 d ((peer_stored_batch_leaves_pending cfg es1 d).2 v hv).1 hs
+  rw [(peer_retry_exactly_the_overdue cfg _ now peers).1] at ho
+  simp only at ho
+  split at ho
+  · simp at ho
+  · simp only [List.mem_singleton, Out.retryTo.injEq] at ho
+    rw [ho.2]
+    intro hm
+    obtain ⟨x, hx, hxd, _⟩ := (mem_due cfg _ now d).mp hm
+    exact hnp (by simp only [pendingDigests, List.mem_map]; exact ⟨x, hx, hxd⟩)
+
+/-- (f) The helper: a `BatchRequest(ds, origin)` is ACKed and changes nothing; if `origin` is in the
+committee the replies are, for each requested digest in request order, the bytes the store holds
+under it — the value of the last write to that key in the run — and nothing for digests that were
+never written; if `origin` is not in the committee there is no reply at all. -/
+theorem peer_helper_replies_with_the_stored_bytes (cfg : Cfg) (es : List Event) (ds : List Nat)
+    (origin : Nat) :
+    step cfg (reach cfg es) (.batchRequest ds origin) =
+      (reach cfg es,
+        .ack :: (if cfg.members.contains origin
+                 then (ds.filterMap (fun d => lastWrite cfg d es)).map (Out.reply origin) else [])) := by
+  have : (fun d => lastWrite cfg d es) = lookup (reach cfg es).store := by
+    funext d; exact (lookup_reach cfg es d).symm
+  rw [this]
+  simp only [step]
+  split
+  · rw [replies_eq]
+  · rfl
+
+/-- Non-vacuity and the two surprises.  Committee 1–4, node 1, gc_depth 2, delay 5, 2 retry
+nodes, hash = +100.  `Synchronize([107,108,107], 3)` at wall clock 10 requests `[107,108]` from 3;
+naming them again (with 109) requests only `[109]`, naming only pending ones sends an EMPTY
+request; at wall clock 15 nothing is overdue, at 16 the first two are; the batch with id 7
+arrives and its waiter completes: 107 is gone from the next retry; `Cleanup(3)` drops the entries
+made in round ≤ 1 (all of them: they were made in round 0); a `Synchronize` naming the now STORED
+107 requests it again; the helper answers 107 (stored), skips 108, ignores a stranger. -/
+example :
+    let cfg : Cfg := { name := 1, members := [1, 2, 3, 4], gcDepth := 2, retryDelay := 5, retryNodes := 2,
+                       hash := fun b => b + 100 }
+    outs cfg [.synchronize [107, 108, 107] 3 10, .synchronize [108, 109, 107] 4 11,
+              .synchronize [108] 2 11, .synchronize [110] 9 11,
+              .timer 15 [2, 3], .timer 16 [2, 3], .batchFrame 7, .batchStored 107, .batchStored 108,
+              .timer 17 [4, 2], .cleanup 1, .cleanup 3, .timer 99 [2, 3],
+              .synchronize [107] 3 100, .batchRequest [107, 108, 107] 2, .batchRequest [107] 9, .garbage]
+      = [.requestTo 3 [107, 108], .requestTo 4 [109], .requestTo 2 [],
+         .retryTo [2, 3] [107, 108],
+         .ack, .stored 107 7, .digestToConsensus 107,
+         .retryTo [4, 2] [108, 109, 110],
+         .requestTo 3 [107],
+         .ack, .reply 2 7, .reply 2 7, .ack, .ack] := by
   decide
 
 end HS.C13
